@@ -505,8 +505,10 @@ where
 
     fn output_frames_max(&self) -> usize {
         // Set length to chunksize*ratio plus a safety margin of 10 elements.
-        (self.chunk_size as f64 * self.resample_ratio_original * self.max_relative_ratio + 10.0)
-            as usize
+        // Multiply in the same order as when calculating the needed length for a call,
+        // the result must never be smaller than that.
+        let max_ratio = self.resample_ratio_original * self.max_relative_ratio;
+        (self.chunk_size as f64 * max_ratio + 10.0) as usize
     }
 
     fn output_frames_next(&self) -> usize {
